@@ -219,6 +219,32 @@ def run_rename(ctx, st):
             __import__('vxlib.symx.core', fromlist=['x']).proxy_rejected(e)
             err = e
         return out, err
+    def objs(d):
+        """trace objects: (text when reported, text after the whole input was read)"""
+        from pykdebugparser.pykdebugparser import PyKdebugParser
+        p = PyKdebugParser()
+        if ctx.symbolic:
+            p.threads_pids, p.pids_names = SymMap(), SymMap()
+        got, err = [], None
+        try:
+            for t in p.traces(make_stream(d)):
+                got.append((str(t), t))
+        except Budget:
+            raise
+        except Exception as e:      # noqa
+            __import__('vxlib.symx.core', fromlist=['x']).proxy_rejected(e)
+            err = e
+        return [(a, str(t)) for a, t in got], err
+    fo, ferr = objs(data)
+    po, perr = objs(_cut(data, st['cut']))
+    L = 'C06/rename/traces'
+    ctx.check(L + '/full-file-parses', ferr is None, repr(ferr))
+    ctx.check(L + '/prefix-length', len(po) <= len(fo), '%d vs %d traces' % (len(po), len(fo)))
+    eq = (lambda x, y: sweep.pieces_equal(ctx.template(x), ctx.template(y))) if ctx.symbolic else (lambda x, y: x == y)
+    for i, (at_report, at_end) in enumerate(fo):
+        ctx.check(L + '/reported-trace-never-changes', eq(at_report, at_end), 'trace %d reads differently after later records were parsed' % i)
+    for i in range(min(len(po), len(fo))):
+        ctx.check(L + '/prefix', eq(po[i][1], fo[i][1]), 'trace %d of the cut dump differs from the complete dump\'s' % i)
     for color in (True, False):
         full, ferr = lines(data, color)
         part, perr = lines(_cut(data, st['cut']), color)
